@@ -179,6 +179,11 @@ var degenerateForms = []string{
 	"st2.S.A = [1, 2]\nfor q in st2.S.A {\nst2.S.A = st2.S.A[:0]\n}", "cc = [1, 2, 3]\nfor q in cc {\ncc = cc[:1]\n}", "st.B = {\"a\": 1, \"b\": 2}\nfor k, w in st.B {\nst.B = {}\n}",
 	"st.A = [1, 2, 3]\nfor q in st.A {\nst.A += 4\nif len(st.A) > 8 { break }\n}", "kk = make(struct{Tag interface, N int64})\nkk.Tag = [1, 2]\nx[kk]", "kk = make(struct{Tag interface, N int64})\nkk.Tag = [1, 2]\nx[kk] = 2",
 	"kk = make(struct{Tag interface, N int64})\nkk.Tag = {}\ndelete(x, kk)", "kk = make(struct{Tag interface, N int64})\nkk.Tag = f\n{kk: 1}", "kk = make(struct{Tag interface, N int64})\nkk.Tag = [1]\ntim[kk] = 2\nkk in [kk]",
+	// an operand read from a slot that a LATER operand of the same construct replaces (the first operand must be a value by then)
+	"qq = [1]\nfunc ff() { qq[0] = [1, 2]; return 5 }\nmm = {qq[0]: ff()}", "qq = [1]\nfunc ff() { qq[0] = {}; return 5 }\nmm = map[interface]int64{qq[0]: ff()}",
+	"qq = [1]\nfunc ff() { qq[0] = [1, 2]; return 5 }\nmm = {qq[0]: ff(), 2: 3}\nmm[1]", "qq = make([]interface, 1)\nqq[0] = 1\nfunc ff() { qq[0] = func() { }; return 5 }\nmm = {qq[0]: ff()}",
+	"st.A = [1]\nfunc ff() { st.A = nil; return 5 }\n{st.A: ff()}", "qq = [1]\nfunc ff() { qq[0] = [1, 2]; return 1 }\nswitch qq[0] { case ff(): 1 }", "qq = [1]\nfunc ff() { qq[0] = [1, 2]; return 1 }\nqq[0] in [ff(), qq[0]]",
+	"qq = [[1]]\nfunc ff() { qq[0] = 7; return 0 }\nqq[0][ff()]", "qq = [[1, 2]]\nfunc ff() { qq[0] = 7; return 1 }\nqq[0][ff():]", "qq = [1]\nfunc ff() { qq[0] = [1]; return 0 }\nx[qq[0]] = ff()\nx[qq[0]]",
 	"func rec(n) { return rec(n) }", "type T struct", "struct", "chan", "map", "len", "return 1, ", "throw", "break", "continue", "return",
 }
 
